@@ -60,6 +60,7 @@ def main(argv=None) -> int:
                     f"{aud['skipped_anchor_absent']} skipped (anchor text absent from this tree)"
                 )
                 print(f"  SENSITIVITY: {aud.get('seeded_reported', 0)}/{aud.get('seeded_changes', 0) - aud.get('seeded_skipped', 0)} confirmed sub-agent changes kept for this property reported ({aud.get('seeded_skipped', 0)} skipped: no longer break it / do not apply to this tree)")
+                print(f"  SENSITIVITY: {aud.get('benign_silent', 0)} of {aud.get('benign_refactorings', 0)} behaviour-preserving refactorings kept for this property leave the check silent, {aud.get('benign_not_decided', 0)} are not decided (exit 2), {len(aud.get('benign_alarms', []))} alarm {aud.get('benign_alarms', [])}")
                 for pr in aud["problems"] + aud.get("seeded_problems", []):
                     print(f"  SENSITIVITY-PROBLEM: {pr}")
         code = report.finish()
